@@ -433,6 +433,14 @@ def mk_ite(cond, a: Frac, b: Frac) -> Frac:
         return a
     if cond is False:
         return b
+    # clamp idioms:  (0 if x < 0 else x)  ==  max(x, 0)   ;   (x if x > 0 else 0) == max(x, 0)
+    if isinstance(cond, tuple) and cond[0] == "cmp" and cond[1] in ("<", "<="):
+        d = cond[2]
+        if a.is_zero() and b == d:
+            return mk_fn("max", d, ZERO)
+        if b.is_zero() and a == -d:
+            return mk_fn("max", -d, ZERO)
+
     return Frac.atom(("ite", cond, a, b))
 
 
